@@ -1,6 +1,7 @@
 /-
   Driver for C18.  Case line: `<feed> <hex data> <hex unit> <hex unit> …`
     feed  = `str` (sh -c, standard input = data) | `file` (sh -s, script is /dev/stdin)
+          | `script` (sh /script.sh, standard input = data)
           | `pipe:<pause>:<n1>,<n2>,…` (sh -s, script written into a pipe in chunks of n1, n2, … bytes)
     the script is the concatenation of the units (unit boundaries matter to the harness only).
   Output: `trace=<item|item…> status=<n> err=<0/1> echo=<hex>` TAB `<spec verdict>`.
@@ -29,7 +30,7 @@ def decAll : List String → Option (List (List UInt8))
 def runLine (line : String) : String :=
   match words line with
   | feed :: dataT :: unitTs =>
-    let feedOk : Bool := feed == "str" || feed == "file" ||
+    let feedOk : Bool := feed == "str" || feed == "file" || feed == "script" ||
       (match feed.splitOn ":" with
        | ["pipe", p, sz] => p.toNat?.isSome && !(sz.splitOn ",").isEmpty &&
                             (sz.splitOn ",").all (fun t => (t.toNat?.getD 0) > 0)
@@ -38,14 +39,15 @@ def runLine (line : String) : String :=
     match decBytes dataT, decAll unitTs with
     | some data, some units =>
       let script := units.flatten
-      let shared := feed != "str"
+      let fileSrc := feed == "script"
+      let shared := feed != "str" && !fileSrc
       let chunks : Option (List (List UInt8)) :=
         match feed.splitOn ":" with
         | ["pipe", _, sz] =>
           let sizes := (sz.splitOn ",").filterMap String.toNat?
           some (chunksOf sizes (script.length + 1) 0 script)
         | _ => none
-      let r := run shared script data
+      let r := if fileSrc then runFile script data else run shared script data
       let showObs (out : List Out) (status : Nat) (o : Outcome) (echo : List UInt8) : String :=
         let tr := "|".intercalate (out.reverse.map showOut)
         match o with
@@ -56,8 +58,8 @@ def runLine (line : String) : String :=
         if k == 0 then none else some (units.take k).flatten
       -- Spec column: a violated clause of the Spec on the model's own run, else the prediction of
       -- the line-by-line reference reader
-      let verdict := check shared script data prefixes chunks r
-      let sp := specRun shared script data
+      let verdict := check fileSrc shared script data prefixes chunks r
+      let sp := if fileSrc then specRunFile script data else specRun shared script data
       obs ++ "\t" ++ (if verdict != "ok" then verdict
                       else "=" ++ showObs sp.1.out sp.1.status sp.2 sp.1.echo)
     | _, _ => "bad-case\t-"
